@@ -778,7 +778,68 @@ end NirVerif.Generated
 
 
 
-ITEMS = {"T1": t1_fields, "T2": t2_whitelist, "T3": t3_file_modes, "T4": t4_conv_axis, "T5": t5_flatten, "T6": t6_lif, "T7": t7_cuba, "T8": t8_unique_name}
+# ---------------------------------------------------------------------------------------
+# T9  neuron constructors: which parameters the common-shape assertion compares, which one the types are taken from
+# ---------------------------------------------------------------------------------------
+def t9_neuron_shapes():
+    item = "T9"
+    tree = ast.parse(_src("nir/ir/neuron.py"))
+    same, src = [], []
+    for cls in ("CubaLIF", "IF", "LI", "LIF"):
+        fn = _find_func(tree, "__post_init__", cls)
+        if fn is None:
+            raise Refusal(item, f"{cls}.__post_init__ not found")
+        body = [st for st in fn.body if not (isinstance(st, ast.Expr) and isinstance(st.value, ast.Constant))]
+        if not body or not isinstance(body[0], ast.Assert):
+            raise Refusal(item, f"{cls}.__post_init__ does not begin with the shape assertion")
+        t = body[0].test
+        # a chain a == b == c, or a conjunction of such chains (which must connect all operands: each chain after the
+        # first shares an operand with what came before)
+        chains = t.values if isinstance(t, ast.BoolOp) and isinstance(t.op, ast.And) else [t]
+        names = []
+        for ci, ch in enumerate(chains):
+            if not (isinstance(ch, ast.Compare) and all(isinstance(o, ast.Eq) for o in ch.ops)):
+                raise Refusal(item, f"{cls}: the first assertion is not a chain (or conjunction of chains) of == comparisons")
+            ops_ = []
+            for e in [ch.left] + list(ch.comparators):
+                if not (isinstance(e, ast.Attribute) and e.attr == "shape" and isinstance(e.value, ast.Attribute)
+                        and isinstance(e.value.value, ast.Name) and e.value.value.id == "self"):
+                    raise Refusal(item, f"{cls}: an operand of the shape assertion is not self.<field>.shape")
+                ops_.append(e.value.attr)
+            if ci > 0 and not (set(ops_) & set(names)):
+                raise Refusal(item, f"{cls}: the conjuncts of the shape assertion are not connected")
+            names += [x for x in ops_ if x not in names]
+        same.append((cls, names))
+        # the declared types: np.array(self.<field>.shape, dtype=int) on both sides
+        srcs = set()
+        for st in body[1:]:
+            if isinstance(st, ast.Assign) and len(st.targets) == 1 and isinstance(st.targets[0], ast.Attribute) \
+                    and st.targets[0].attr in ("input_type", "output_type"):
+                d = st.value
+                ok = isinstance(d, ast.Dict) and len(d.keys) == 1 and isinstance(d.keys[0], ast.Constant) \
+                    and d.keys[0].value == st.targets[0].attr.split("_")[0]
+                v = d.values[0] if ok else None
+                ok = ok and isinstance(v, ast.Call) and ExprT(item, "num", {}).dotted(v.func) == "np.array" and len(v.args) == 1 \
+                    and isinstance(v.args[0], ast.Attribute) and v.args[0].attr == "shape" \
+                    and isinstance(v.args[0].value, ast.Attribute) and isinstance(v.args[0].value.value, ast.Name) \
+                    and v.args[0].value.value.id == "self" \
+                    and [(k.arg, getattr(k.value, "id", None)) for k in v.keywords] == [("dtype", "int")]
+                if not ok:
+                    raise Refusal(item, f"{cls}: {st.targets[0].attr} is not {{'<port>': np.array(self.<field>.shape, dtype=int)}}")
+                srcs.add((st.targets[0].attr, v.args[0].value.attr))
+        if {a for a, _ in srcs} != {"input_type", "output_type"} or len({b for _, b in srcs}) != 1:
+            raise Refusal(item, f"{cls}: input_type / output_type are not both taken from one parameter's shape")
+        src.append((cls, srcs.pop()[1]))
+    lst = lambda xs: "[" + ", ".join(lean_str(x) for x in xs) + "]"
+    txt = HEADER + "\nnamespace NirVerif.Generated\n\n/-- per neuron class: the parameters whose shapes the constructor's first assertion compares (in order) -/\n" \
+        "def sameShapeFields : List (String × List String) :=\n  [" + ",\n   ".join(f"({lean_str(c)}, {lst(ns)})" for c, ns in same) + "]\n\n" \
+        "/-- per neuron class: the parameter whose shape both declared types are taken from -/\n" \
+        "def typeSourceField : List (String × String) :=\n  [" + ", ".join(f"({lean_str(c)}, {lean_str(f)})" for c, f in src) + "]\n\nend NirVerif.Generated\n"
+    return {"NeuronShapes.lean": txt}
+
+
+
+ITEMS = {"T1": t1_fields, "T2": t2_whitelist, "T3": t3_file_modes, "T4": t4_conv_axis, "T5": t5_flatten, "T6": t6_lif, "T7": t7_cuba, "T8": t8_unique_name, "T9": t9_neuron_shapes}
 
 
 def regenerate(out_dir=OUT, items=None):
